@@ -268,6 +268,11 @@ def run(ctx, chk):
     for name in sorted(set(T["std"]) | set(T["none"]) | set(T["alloc"])):
         a, b, n = T["std"].get(name), T["alloc"].get(name), T["none"].get(name)
         def same(x, y, cx, cy):
+            if x is None or y is None:
+                # a helper that exists (under this definition path) in one configuration only, e.g. a
+                # cfg-specific error constructor: nothing to compare by name - its effect is compared
+                # through the outcomes of its callers
+                return True
             if x == y:
                 return True
             # the same function written differently (ranges vs lookup table): compare value by value
